@@ -107,6 +107,10 @@ def run_workers(jobs, timeout):
         env = dict(ENV)
         env["SIM_JOB"] = jp
         env["SIM_STUCK_DIR"] = os.path.join(VERIF, "stuck")
+        # every persistent node opens a real Badger database (memtable arenas of
+        # tens of megabytes each); keep the garbage collector ahead of that so
+        # that sixteen workers stay well inside the machine's memory
+        env.setdefault("GOMEMLIMIT", "3GiB")
         if "SIM_RUN_WALL" not in os.environ and job.get("mode") == "explore":
             # exploration: one pathological run must not hold a worker for long
             # (aborted runs keep their findings); replays run to the end
@@ -289,12 +293,19 @@ def check(prop, tier):
                 errors.append("run seed=%s: %s" % (r["seed"], r["error"][:3000]))
     if not runs:
         die(2, "HARNESS-ERROR: no run completed\n" + "\n".join(errors)[:4000])
-    if errors:
+    has_viol = any(v.get("property") == prop for r in runs for v in (r.get("violations") or []))
+    if errors and not has_viol:
         print("\n".join(errors)[:6000])
         die(2, "HARNESS-ERROR property=%s: %d worker/run errors (not a property verdict)" % (prop, len(errors)))
+    if errors:
+        # some worker failed or hung, but other runs report violations of this
+        # property: those are confirmed from their replay files below and stand on
+        # their own (a hang is then most likely another face of the same change)
+        print("\n".join(errors)[:3000])
+        print("WORKER-TROUBLE property=%s: %d worker/run errors beside reported violations" % (prop, len(errors)))
     for st in stuck:
         print("STUCK-RUN property=%s: a worker abandoned a run that made no progress (goroutine dump in /verif/stuck/): %s" % (prop, st.strip().splitlines()[-1] if st.strip() else ""))
-    if len(stuck) > 2:
+    if len(stuck) > 2 and not has_viol:
         die(2, "HARNESS-ERROR property=%s: %d workers got stuck (not a property verdict)" % (prop, len(stuck)))
 
     # determinism re-check on a sample (fresh process, other GOMAXPROCS)
@@ -389,6 +400,10 @@ def check(prop, tier):
         if exit_code == 0:
             exit_code = 2
             lines.append("HARNESS-ERROR property=%s: determinism re-check diverged (not a property verdict)" % prop)
+    if (errors or len(stuck) > 2) and exit_code == 0:
+        # only listed findings beside the worker trouble: no verdict
+        exit_code = 2
+        lines.append("HARNESS-ERROR property=%s: %d worker/run errors, %d stuck workers (not a property verdict)" % (prop, len(errors), len(stuck)))
     write_evidence(prop, tier, seed, runs, time.time() - t0, budget, workers, len(new_viol), list(known_seen.keys()), aux, rechecked, div)
     shutil.rmtree(rundir, ignore_errors=True)
     for l in lines:
